@@ -820,7 +820,7 @@ theorem str_total_aux {P : ParserPrec} {S : PrintPrec} : ∀ (n : Nat) (e : Expr
             (printable_children hpi (by intro cs h; cases h) c
               (by simpa [Expr.children] using hc)) _
         simp only [strE]
-        refine isOk_bind (hch _ (by simp) _) (fun _ => isOk_bind (strL_total hcs) fun _ => ?_)
+        refine isOk_bind (strL_total hcs) (fun _ => isOk_bind (hch _ (by simp) _) fun _ => ?_)
         exact ⟨_, rfl⟩
       · have hnt : ∀ cs, i = .tuple cs → False := fun cs h => hit ⟨cs, h⟩
         rw [strE]
